@@ -148,7 +148,9 @@ def rule_segmerge(ctx):
         yield ob(R, f, "chord.merge_chord_intervals:fusion-condition", False, "fusion is not decided on the encoded (root, bitmap, bass) triple")
         return
     # no return path skips the encoded comparison (a shortcut deciding on the label text merges less than the encoding does)
-    bypass = [r for r in s.returns if not any(x is enc[0].term for x in tm.walk(r.term))]
+    # (a loop written with `continue` is summarised with its branch condition abstracted - `nondet` - so the encoding
+    # need not appear in the returned term itself; the condition is then read from the comparison sites below)
+    bypass = [r for r in s.returns if not any(x is enc[0].term or (x.op == "call" and call_name(x) == "chord.encode_many") or x.op == "nondet" for x in tm.walk(r.term))]
     yield ob(R, f, "chord.merge_chord_intervals:no-bypass", not bypass and not any(symeval.pc_conds(c.pc) for c in enc), "every return is computed from the encoded labels" if not bypass else "a return path yields %s without consulting the encoding (under %s): equal chords spelled differently stay unmerged there" % (tm.show(bypass[0].term, 3), "; ".join(tm.show(c, 3) for c, _ in symeval.pc_conds(bypass[0].pc))), node=bypass[0].node if bypass else None)
     red = enc[0].args[1] if len(enc[0].args) > 1 else dict(enc[0].kw).get("reduce_extended_chords")
     yield ob(R, f, "chord.merge_chord_intervals:encoding", enc[0].args[0].op == "param" and red is not None and tm.is_const(red, True), "labels are encoded with extended chords reduced (encode_many(labels, True))")
